@@ -169,6 +169,11 @@ pub fn factor(n: Uint, alg: Algo, prefs: &Preferences) -> Result<Vec<Uint>, Fact
     if n.is_zero() {
         return Ok(vec![n]);
     }
+    // Modular arithmetic (ZmodN) only supports moduli up to 512 bits:
+    // refuse larger inputs instead of panicking later.
+    if n.bits() > 64 * arith_montgomery::MINT_WORDS as u32 {
+        return Err(FactoringFailure);
+    }
     let mut factors = vec![];
     if prefs.verbose(Verbosity::Info) {
         eprintln!("Testing small prime divisors");
